@@ -27,6 +27,11 @@ def run(tier):
             continue
         st["error_grammars"] += 1
         lr1 = pc.is_lr1(r)
+        if "recwf=1" in r["validate"] and "noshifteof=1" in r["validate"]:
+            st["recwf_validated"] = st.get("recwf_validated", 0) + 1
+        elif r["validate"].startswith("safe="):
+            ck.violation("generated tables violate RecWF / NoShiftEOF (hypotheses of C07_recover_spec, C07_no_panic_in_recovery, C07_tokens_in_order): %s" % r["validate"],
+                         {"bnf": r["text"], "validate": r["validate"], "tables": r["impl_lrtab"], "unchecked": "per-table obligations recWFb / noShiftEOFb"}, found_input=False)
         st["lr1_error_grammars"] += lr1
         stripped = {tuple(c["w"]): c for c in r["cases"] if c["kind"] == "stripped"}
         for c in r["cases"]:
